@@ -1,6 +1,7 @@
 #!/usr/bin/env python3
 
 import logging
+import os
 import re
 import sys
 from functools import cached_property
@@ -133,9 +134,13 @@ class FastaIndex:
             raise IndexUsageError(msg)
         if self.fai_file.exists():
             logging.warning(f"Overwriting FAI index file '{self.fai_file}'")
-        with self.fai_file.open("w") as idx_fh:
+        # Write to a temporary file and rename it into place, so that a
+        # half-written index is never seen under the real file name.
+        tmp_file = self.temp_file_for(self.fai_file)
+        with tmp_file.open("w") as idx_fh:
             for name, info in idx_dict.items():
                 idx_fh.write(info.fai_row(name))
+        tmp_file.replace(self.fai_file)
 
     def load_assembly(self):
         if self.assembly:
@@ -150,8 +155,15 @@ class FastaIndex:
             raise IndexUsageError(msg)
         if self.agp_file.exists():
             logging.warning(f"Overwriting AGP assembly file '{self.agp_file}'")
-        with self.agp_file.open("w") as agp_fh:
+        tmp_file = self.temp_file_for(self.agp_file)
+        with tmp_file.open("w") as agp_fh:
             format_agp(asm, agp_fh)
+        tmp_file.replace(self.agp_file)
+
+    @staticmethod
+    def temp_file_for(file: Path) -> Path:
+        """Temporary file, unique to this process, in the same directory"""
+        return file.with_name(f"{file.name}.{os.getpid()}.tmp")
 
     def run_indexing(self):
         idx_dict, assembly = index_fasta_file(self.fasta_file, self.buffer_size)
